@@ -131,8 +131,10 @@ func c05Instances(name string, lvl int) []c05Inst {
 			base := joinInts(t)
 			add(c05Inst{construct: "^X.Y.Z", rng: "^" + base, lo: base, loIncl: true, hi: sem(caretUpper(t)) + "-0"})
 			add(c05Inst{construct: "~X.Y.Z", rng: "~" + base, lo: base, loIncl: true, hi: sem(tildeUpper(t)) + "-0"})
-			add(c05Inst{construct: "^X.Y.Z-pre", rng: "^" + base + "-alpha.2", lo: base + "-alpha.2", loIncl: true, hi: sem(caretUpper(t)) + "-0"})
-			add(c05Inst{construct: "~X.Y.Z-pre", rng: "~" + base + "-alpha.2", lo: base + "-alpha.2", loIncl: true, hi: sem(tildeUpper(t)) + "-0"})
+			for _, pre := range []string{"-alpha.2", "-0", "-rc"} {
+				add(c05Inst{construct: "^X.Y.Z-pre", rng: "^" + base + pre, lo: base + pre, loIncl: true, hi: sem(caretUpper(t)) + "-0"})
+				add(c05Inst{construct: "~X.Y.Z-pre", rng: "~" + base + pre, lo: base + pre, loIncl: true, hi: sem(tildeUpper(t)) + "-0"})
+			}
 			for _, u := range t3 {
 				if lvl == 0 && (u[1] != 0 || u[2] > 1) {
 					continue
@@ -162,7 +164,10 @@ func c05Instances(name string, lvl int) []c05Inst {
 			base := joinInts(t)
 			add(c05Inst{construct: "^X.Y.Z", rng: "^" + base, lo: base, loIncl: true, hi: sem(caretUpper(t)), hiCore: caretUpper(t)})
 			add(c05Inst{construct: "~X.Y.Z", rng: "~" + base, lo: base, loIncl: true, hi: sem(tildeUpper(t)), hiCore: tildeUpper(t)})
-			add(c05Inst{construct: "^X.Y.Z-pre", rng: "^" + base + "-alpha.2", lo: base + "-alpha.2", loIncl: true, hi: sem(caretUpper(t)), hiCore: caretUpper(t)})
+			for _, pre := range []string{"-alpha.2", "-0", "-rc"} {
+				add(c05Inst{construct: "^X.Y.Z-pre", rng: "^" + base + pre, lo: base + pre, loIncl: true, hi: sem(caretUpper(t)), hiCore: caretUpper(t)})
+				add(c05Inst{construct: "~X.Y.Z-pre", rng: "~" + base + pre, lo: base + pre, loIncl: true, hi: sem(tildeUpper(t)), hiCore: tildeUpper(t)})
+			}
 		}
 		for _, t := range t2 {
 			base := joinInts(t)
@@ -182,6 +187,10 @@ func c05Instances(name string, lvl int) []c05Inst {
 			base := joinInts(t)
 			add(c05Inst{construct: "^X.Y.Z", rng: "^" + base, lo: base, loIncl: true, hi: sem(caretUpper(t)), hiCore: caretUpper(t)})
 			add(c05Inst{construct: "~X.Y.Z", rng: "~" + base, lo: base, loIncl: true, hi: sem(tildeUpper(t)), hiCore: tildeUpper(t)})
+			for _, pre := range []string{"-beta.1", "-beta1", "-RC2", "-alpha"} {
+				add(c05Inst{construct: "^X.Y.Z-pre", rng: "^" + base + pre, lo: base + pre, loIncl: true, hi: sem(caretUpper(t)), hiCore: caretUpper(t)})
+				add(c05Inst{construct: "~X.Y.Z-pre", rng: "~" + base + pre, lo: base + pre, loIncl: true, hi: sem(tildeUpper(t)), hiCore: tildeUpper(t)})
+			}
 			for _, u := range t3 {
 				if lvl == 0 && (u[1] != 0 || u[2] > 1) {
 					continue
@@ -246,7 +255,9 @@ func c05Instances(name string, lvl int) []c05Inst {
 		for _, t := range t3 {
 			base := joinInts(t)
 			add(c05Inst{construct: "~>X.Y.Z", rng: "~> " + base, lo: base, loIncl: true, hi: sem(tildeUpper(t)), hiCore: tildeUpper(t)})
-			add(c05Inst{construct: "~>X.Y.Z-pre", rng: "~> " + base + "-rc.1", lo: base + "-rc.1", loIncl: true, hi: sem(tildeUpper(t)), hiCore: tildeUpper(t)})
+			for _, pre := range []string{"-rc.1", "-0", "-dev"} {
+				add(c05Inst{construct: "~>X.Y.Z-pre", rng: "~> " + base + pre, lo: base + pre, loIncl: true, hi: sem(tildeUpper(t)), hiCore: tildeUpper(t)})
+			}
 		}
 		for _, t := range t2 {
 			base := joinInts(t)
